@@ -46,7 +46,7 @@ pub fn run(args: &Args) -> Report {
       r
     }
     "C02" => {
-      let mut r = with_exhaustive(wf::run_classes("C02", t, s, &[CP { name: "td-exact", n: 5000 * scale }, CP { name: "td-mixed", n: 5000 * scale }], replay.clone()), "C02", t, s, &replay);
+      let mut r = with_exhaustive(wf::run_classes("C02", t, s, &[CP { name: "td-exact", n: 5000 * scale }, CP { name: "td-mixed", n: 5000 * scale }, CP { name: "td-fc-exact", n: 2500 * scale }], replay.clone()), "C02", t, s, &replay);
       r.rule = format!("{}Class: top-down-only histories, each session followed by an identical repeated session. Monitors: at most one execution per task per session; every re-execution justified by an inconsistent/failing verdict of one of the task's own recorded dependencies in this session; per owner, the checker-side check sequence is a prefix of the declaration order ending at the first inconsistency; repeated session executes nothing; exact-checker programs execute a subset of what Ref executes. distinct/non-trivial as for C01.", CLASS_DOC);
       r.floor("idempotence probes ran", r.get("idempotence_probes") > 1000);
       r.floor("subset clause exercised", r.get("subset_clause_sessions") > 100);
@@ -73,8 +73,8 @@ pub fn run(args: &Args) -> Report {
       r
     }
     "C05" => {
-      let mut r = wf::run_classes("C05", t, s, &[CP { name: "td-inj-hr", n: 3000 * scale }, CP { name: "td-inj-hw", n: 3000 * scale }, CP { name: "mixed-inj-hr", n: 2000 * scale }, CP { name: "mixed-inj-hw", n: 2000 * scale }, CP { name: "td-inj-any", n: 1000 * scale }], replay);
-      r.rule = format!("{}Classes: a read of a generated resource without requiring its generator, or a write to a resource that other tasks read, is injected (usually conditional on a source value, so that it becomes live in a later session) at a random task and position of a well-formed program. Monitors: (online, shadow-based) a read that returns while another task has a recorded write and the reader does not reach it over recorded or in-progress requires; a write function entered (or written_to returned) while a recorded reader does not reach the writer; a hidden-dependency abort after the write function already ran; final store structure after a returning build; (Ref-based) the from-scratch interpreter hits a hidden dependency while evaluating a root for which pie returned a value. non-trivial = a distinct case with a session aborted with a hidden-dependency diagnosis.", CLASS_DOC);
+      let mut r = wf::run_classes("C05", t, s, &[CP { name: "td-inj-hr", n: 3000 * scale }, CP { name: "td-inj-hw", n: 3000 * scale }, CP { name: "mixed-inj-hr", n: 2000 * scale }, CP { name: "mixed-inj-hw", n: 2000 * scale }, CP { name: "td-inj-any", n: 1000 * scale }, CP { name: "td-inj-rw", n: 1500 * scale }, CP { name: "mixed-inj-rw", n: 1000 * scale }], replay);
+      r.rule = format!("{}Classes: a read of a generated resource without requiring its generator, or a write to a resource that other tasks read, or (inj-rw) a task that both reads and writes a source while another task reads it without requiring that task, is injected (usually conditional on a source value, so that it becomes live in a later session) at a random task and position of a well-formed program. Monitors: (online, shadow-based) a read that returns while another task has a recorded write and the reader does not reach it over recorded or in-progress requires; a write function entered (or written_to returned) while a recorded reader does not reach the writer; a hidden-dependency abort after the write function already ran; final store structure after a returning build; (Ref-based) the from-scratch interpreter hits a hidden dependency while evaluating a root for which pie returned a value. non-trivial = a distinct case with a session aborted with a hidden-dependency diagnosis.", CLASS_DOC);
       r.floor("hidden-dependency aborts observed", r.get("aborts_hidden-dependency") > 50);
       r.floor("injected programs also ran without abort (legal side)", r.get("sessions") > r.get("aborts") * 2);
       r
@@ -132,7 +132,7 @@ pub fn run(args: &Args) -> Report {
     "C19" => {
       let mut r = Report::new();
       if replay.as_ref().map_or(true, |(c, _)| c != "crash-points") {
-        r = wf::run_classes("C19", t, s, &[CP { name: "td-inj-anyp", n: 3000 * scale }, CP { name: "td-inj-up", n: 2000 * scale }, CP { name: "mixed-inj-anyp", n: 1000 * scale }], replay.clone());
+        r = wf::run_classes("C19", t, s, &[CP { name: "td-inj-anyp", n: 3000 * scale }, CP { name: "td-inj-up", n: 2000 * scale }, CP { name: "mixed-inj-anyp", n: 1000 * scale }, CP { name: "td-inj-rw", n: 1000 * scale }], replay.clone());
       }
       if replay.as_ref().map_or(true, |(c, _)| c == "crash-points") {
         r.merge(wf::run_crash_points("C19", t, s, 300 * scale, replay.as_ref().map(|x| x.1)));
